@@ -1,4 +1,4 @@
-import Slock.Proofs.Engine2SimInvUse
+import Slock.Proofs.Engine2SimQueue
 import Slock.Properties.C01
 /-!
 # EngineSim — the record-level model (M-ENGINE stage 2) against the stage-1 model, through `abs`
@@ -25,18 +25,33 @@ Proved here, for EVERY reachable stage-2 state (`Engine2.DBQ`, an invariant of a
 * `admission_contract_transfers` — demonstration of a transfer: stage 1's contract of the admission kernel (C01 `doLock_sound`) holds
   for the record-level model's direct grant, stated over stage-2 states (`currentLock`'s record in place of the oldest holder).
 
-NOT proved (the functional simulation for the branches that change the stage-1 state): update / re-lock of a hold, grant, grant without
-hold, queueing, cancel, one-level unlock, release, the wake pass, and the two sweeps (`sim_tick`). What they need beyond the above, each
-as an invariant of reachable stage-2 states that is not established yet: (1) the live holders' stage-1 views are pairwise distinct
-(stage 1 replaces / removes "the first holder equal to h": `hid` = wheel sequence number of the grant, unique); (2) a hold's wheel
-entry caches its back-off counter (`eSched.checked = eChecked`, read by `updateHold` under NO_RESET); (3) the wait queue: raw head live,
-cached priorities current, priority mode sorted, FIFO mode all priorities equal (so that stage 1's always-sorted insertion is what the
-inline-array → priority-ring representation does), live requests pairwise distinct by (RequestId, connection) (stage 1's
-`removeWaiter`; an input assumption of stage 1 itself); (4) `locked` = Σ depth and `waited` ⇒ queue non-empty (so that an unlinked
-key record shows an EMPTY key to stage 1) — (4) would follow from the simulation itself by induction (stage 1's `KeyInv`);
-(5) for `sim_tick`: wheel entries' sequence numbers pairwise distinct (both sweeps sort by them) and the order of the key table
-irrelevant. With (1)–(5) the corollary `reachable₂ s → ∃ a, reachable₁ a ∧ Equiv (abs s) a` and the transfer of C01–C06 / C17 census
-follow; without them they do not.
+* `wake_pass_refines`, `sim_lock_grant`, `sim_lock_hold`, `sim_unlock_hold`, `sim_unlock_cancel`, and the two summaries **`sim_lock`**
+  / **`sim_unlock`** — EVERY branch of LOCK and UNLOCK (no value frame): grant with / without hold, update, re-entrant lock, queueing
+  (inline array → priority ring against stage 1's sorted insertion), cancel, one-level unlock, release (record freed, key record
+  reclaimed), each with its wake pass: `abs` of the record-level result is `Equiv` to stage 1's result on `abs s`, same replies.
+* `reachable_ki`, `reachable_ks` — the record-level facts these need are invariants of every reachable state (`Sim.run_dbk`,
+  `Sim.run_dbs`): lock.protocol = command's connection; an expiry-wheel entry caches the back-off counter; holds carry distinct
+  identities; nothing in the holder queue is a live waiter; both queues hold distinct records; the wait queue's shape (cached
+  priorities current, sorted / all equal, empty unless `waited`) and its raw head live (`wait_priority_refines`: the `hp` hypothesis
+  of `lock_branch_refines` always holds).
+
+What the summaries still ASSUME: (a) the two stage-1 invariants of the key's view, `Engine.KeyInv (abs k)` (`locked` = Σ depth) and
+`waited ⇒ waiters ≠ []` — they hold of every reachable STAGE-1 state and would arrive through the induction of the final theorem;
+(b) for cancel: the key's live queued requests carry distinct (RequestId, connection) pairs (stage 1's `removeWaiter` goes by that
+pair: an input assumption); (c) no value frame / no value cell (stage 1 has no value cell).
+
+The closing statement `… → ∃ ops₁, Equiv (abs (run₂ ops)) (run₁ ops₁)` and a transferred stage-1 theorem are in
+`Properties/EngineSimRun.lean` — for runs WITHOUT clock ticks (stage 1's LOCK / UNLOCK respect `Sim.Equiv`: `Proofs/EngineSimCongr.lean`).
+
+NOT proved: `sim_tick` (the two sweeps). What it needs beyond the above: (1) three more record-level invariants — a timeout-wheel
+entry caches its record's back-off counter (`tSched.checked = tChecked`, as `KI.ck` for the expiry wheel), every record's command names
+its key record (`cmd.key = key`: stage 1 finds a collected request's key through its command), the sequence numbers of all wheel
+entries of the DATABASE are below `db.seq` and pairwise distinct (both models process due entries sorted by sequence number; stage 1
+enumerates its key table in a different order); (2) a relation weaker than `Equiv ∘ abs` inside a sweep: the real sweeper pops a due
+long-table entry (`collectT` clears its `long` flag) before firing it, stage 1 does not; (3) per-entry steps: re-arm (`rearmWaiter`
+identifies the request by (RequestId, connection)), the stuttering drops of tombstoned entries, timeout (= `Sim.tomb_live` + wake pass)
+and expiry (= `Sim.abs_removeLock` + wake pass; follower deferral), (4) the fold over the two entry lists (stage 2 visits tombstoned
+entries too), (5) `Equiv`-congruence of stage 1's `opTick` (order-insensitivity of `slotWaiters` / `slotHolds`).
 -/
 namespace Slock.SimP
 open Slock Slock.Sim
@@ -232,5 +247,62 @@ theorem sim_unlock_cancel {s : Engine2.DB} (h : Reachable2 s) (c : Engine.Cmd) (
   rw [hb] at hcl ⊢
   rw [hcl]
   exact Sim.sim_unlock_cancel s hq c data x hb (reachable_ki h c.key).wq ki wu _
+
+/-! ### the wait queue's shape, and LOCK as a whole -/
+
+/-- **Every reachable state**: `KI` + the SHAPE of every wait queue (`Sim.QS`: empty unless `waited`; cached priorities current;
+priority mode sorted, FIFO mode all equal; nothing behind the head is held) + the raw head of every wait queue is a live request
+(`Sim.HL`) — `Sim.run_dbs`. -/
+theorem reachable_ks {s : Engine2.DB} (h : Reachable2 s) (n : Nat) : KS s.seq (s.getKey n) := by
+  obtain ⟨now, a, ops, e⟩ := h
+  rw [e]
+  exact (run_dbs _ ops (Engine2.DBQ.init now a) (DBS.init now a)).getKey n
+
+/-- the waiter-priority test reads the same number in both models: the hypothesis `hp` of `lock_branch_refines` holds in every
+reachable state -/
+theorem wait_priority_refines {s : Engine2.DB} (h : Reachable2 s) (c : Engine.Cmd) :
+    Engine.checkWaitPriority (Engine2.Key.abs (s.getKey c.key)) c = Engine2.checkWaitPriority (s.getKey c.key) c :=
+  checkWaitPriority_refines (reachable_ks h c.key) c
+
+/-- **LOCK (no value frame, key without a value) — every branch**: the record-level operation is stage 1's operation on `abs`, given
+the two stage-1 invariants of the key's view. -/
+theorem sim_lock {s : Engine2.DB} (h : Reachable2 s) (c : Engine.Cmd) (hcell : (s.getKey c.key).cell = none)
+    (ki : Engine.KeyInv (Engine2.Key.abs (s.getKey c.key)))
+    (fl : (Engine2.Key.abs (s.getKey c.key)).waited = true → (Engine2.Key.abs (s.getKey c.key)).waiters ≠ []) :
+    Equiv (Engine2.abs (Engine2.opLock s c none).1) (Engine.opLock (Engine2.abs s) c).1 ∧
+    (Engine2.opLock s c none).2.map (·.r) = (Engine.opLock (Engine2.abs s) c).2 := by
+  have hp := fun (_ : has c.tflag Engine.TF_PRIORITY = true) => wait_priority_refines h c
+  have hi := SimInv.of_reachable h c.key ki fl
+  cases hb : Engine2.classifyLock s c none with
+  | p0a | p0b | stateError | «show» _ | updateEqual _ | relockNoHold _ | relockRefused _ | unlockedWaitRefused | timeout =>
+    exact sim_lock_quiet h c hcell hp (by rw [hb]; rfl)
+  | updateEqualData x => exact absurd hb (classifyLock_no_ued s c x hcell)
+  | update x => exact sim_lock_hold h c hcell hp hi (Or.inl ⟨x, hb⟩)
+  | relock x => exact sim_lock_hold h c hcell hp hi (Or.inr ⟨x, hb⟩)
+  | grant => exact sim_lock_grant h c hcell hp hi (Or.inl hb)
+  | grantNoHold => exact sim_lock_grant h c hcell hp hi (Or.inr hb)
+  | queue =>
+    have hq := reachable_dbq h
+    have hcl := lock_branch_refines h c hcell hp
+    unfold Engine.opLock Engine2.opLock
+    simp only []
+    rw [hb] at hcl ⊢
+    rw [hcl]
+    exact Sim.sim_lock_queue s hq c none hb (reachable_ks h c.key)
+
+/-- **UNLOCK (no value frame) — every branch**, given the two stage-1 invariants of the key's view and that the key's live queued
+requests carry distinct (RequestId, connection) pairs. -/
+theorem sim_unlock {s : Engine2.DB} (h : Reachable2 s) (c : Engine.Cmd)
+    (ki : Engine.KeyInv (Engine2.Key.abs (s.getKey c.key)))
+    (fl : (Engine2.Key.abs (s.getKey c.key)).waited = true → (Engine2.Key.abs (s.getKey c.key)).waiters ≠ [])
+    (wu : ((Engine2.Key.abs (s.getKey c.key)).waiters.map rcOf).Nodup) :
+    Equiv (Engine2.abs (Engine2.opUnlock s c none).1) (Engine.opUnlock (Engine2.abs s) { c with mgr := s.hasKey c.key }).1 ∧
+    (Engine2.opUnlock s c none).2.map (·.r) = (Engine.opUnlock (Engine2.abs s) { c with mgr := s.hasKey c.key }).2 := by
+  have hi := SimInv.of_reachable h c.key ki fl
+  cases hb : Engine2.classifyUnlock s c with
+  | noManager | stateError | notLocked | unown | cancelNone => exact sim_unlock_quiet h c (by rw [hb]; rfl)
+  | cancel x => exact sim_unlock_cancel h c none ki wu ⟨x, hb⟩
+  | dec x c' => exact sim_unlock_hold h c none hi (Or.inl ⟨x, c', hb⟩)
+  | release x c' => exact sim_unlock_hold h c none hi (Or.inr ⟨x, c', hb⟩)
 
 end Slock.SimP
